@@ -186,3 +186,20 @@ package disk
 //@   loop 0 decreases seqlen(c.ll.seq)
 //@   call removeElement#* asserts[C05] lru-first: payload(arg1.Value) == seqback(c.ll.seq)
 //@   call removeElement#* asserts[C05] pressure: c.currentSize + sizeDelta > c.maxSize
+
+// The remover: the bytes of an evicted file stay in the backlog (queuedEvictionsSize)
+// until onEvict (the unlink) has returned. lastOp: 1 after onEvict, 2 after the atomic Add.
+//@ ghost lastOp Int
+//@ extern field:cache/disk.SizedLRU.onEvict(key, value)
+//@   gmodifies lastOp
+//@   gensures lastOp == 1
+
+//@ func (c *SizedLRU) performQueuedEvictions()
+//@   serves C04 C17
+//@   requires c != nil && c.onEvict != nil
+//@   modifies lastOp
+//@   call dynamic#* asserts[C04] own: arg0 == kv.key && arg1.random == kv.value.random && arg1.size == kv.value.size && arg1.legacy == kv.value.legacy
+//@   loop 0 assume queued-entries-wellformed: forall k Int :: (offset(sliceOfEntries) <= k && k < offset(sliceOfEntries) + len(sliceOfEntries)) ==>
+//@       (elems(sliceOfEntries)[k] != 0 && 0 <= entSod(elems(sliceOfEntries)[k]) && entSod(elems(sliceOfEntries)[k]) <= B62())
+//@   loop 0 modifies lastOp
+//@   call Add#* asserts[C17] afterunlink: lastOp == 1 && arg1 == 0 - kv.value.sizeOnDisk
